@@ -2975,8 +2975,8 @@ class RedunBackendDb(RedunBackend):
         # Write to db.
         self.session.add_all(new_tags)
         self.session.add_all(new_tag_edits)
-        if new_tags or new_tag_edits:
-            self.session.commit()
+        # Always commit: the update above opens a write transaction even when nothing is new.
+        self.session.commit()
 
         return [(tag.tag_hash, entity_id, tag.key, tag.value) for tag in tag_rows]
 
